@@ -154,6 +154,9 @@ impl<T> SocksRequest<T> {
         socket.write_u8(self.cmd).await.context("cmd")?;
         let (dst, dport, target) = match &self.target {
             TargetAddress::DomainPort(domain, port) => {
+                if domain.is_empty() || domain.as_bytes().contains(&0) {
+                    bail!("host name can not be sent with socks4a: {:?}", domain)
+                }
                 ([0, 0, 0, 1], *port, Some(domain.as_bytes()))
             }
             TargetAddress::SocketAddr(a) => {
@@ -206,6 +209,9 @@ impl<T> SocksRequest<T> {
         socket.write_u8(0).await.context("write")?;
         let (t, addr, port) = match &self.target {
             TargetAddress::DomainPort(domain, port) => {
+                if domain.len() > 255 {
+                    bail!("host name too long for socks5: {} bytes", domain.len())
+                }
                 let mut x = Vec::from(domain.as_bytes());
                 x.insert(0, x.len() as u8);
                 (SOCKS_ATYP_DOMAIN, x, *port)
